@@ -224,6 +224,13 @@ class MessageManager(interfaces.TokenInterface, interfaces.MessageManager):
         """If the message is the response can be used to satisfy a future
         duplicate message, store it."""
 
+        if message.mtype not in (ACK, RST):
+            # Only replies use the message ID of the message they answer;
+            # messages we send on our own behalf are numbered from our own
+            # ID space, and a coinciding number there must not replace the
+            # stored reply.
+            return
+
         key = (message.remote, message.mid)
         if key in self._recent_messages:
             self._recent_messages[key] = message
